@@ -61,7 +61,7 @@ type Prog struct {
 	declined    map[*ssa.Function]bool // helpers some context could not inline
 	cflow       *chanFlow
 	constGlob   map[string]map[int64]int64 // package-level tables that are never written after initialisation
-	unresolved  []string               // anchors that failed to resolve
+	unresolved  []string                   // anchors that failed to resolve
 	modCache    *modInfo
 	premiseBusy map[*ssa.Function]bool
 }
